@@ -60,6 +60,7 @@ def run(ctx: Ctx) -> None:
     windows_and_write_effect(ctx, py, rs)
     busy_flag(ctx, py, rs)
     image_renderer(ctx, py)
+    storage_shape(ctx, py)
     ctx.extra["exhaustive"] = True
 
 
@@ -118,11 +119,14 @@ def decode_tables(ctx: Ctx, py: PyProgram, rs: RustProgram) -> None:
                 ctx.need(isinstance(p, Term) and p.ctor == "Command", f"parse_command({addr:#x},{value:#x}) did not fold to a Command")
                 pcs, pin, pdata = p.kwargs["cs"], p.kwargs.get("instr"), p.kwargs.get("data")
                 pn = (_CS[pcs.name], None if pin is None else _IN[pin.name], pdata)
-                kind = r["kind"]
-                if _sym(("sym", kind[1])) == "Instruction":
-                    rn = (_sym(r["cs"]), _sym(kind[2][0]), kind[2][1])
+                if r is None:
+                    rn = None          # the Rust model does not take this write as a command at all
                 else:
-                    rn = (_sym(r["cs"]), None, kind[2][0])
+                    kind = r["kind"]
+                    if _sym(("sym", kind[1])) == "Instruction":
+                        rn = (_sym(r["cs"]), _sym(kind[2][0]), kind[2][1])
+                    else:
+                        rn = (_sym(r["cs"]), None, kind[2][0])
                 if pn != rn:
                     ctx.violation("C15.1/parse-command", f"parse_command[{addr:#06x},{value:#04x}]", f"write {value:#04x} to {addr:#06x}: Python {pn}, Rust {rn}", f"{HD_PY} vs {rel}")
     ctx.instance("C15.1/parse-command", "write (address,value) -> (chip select, instruction, masked data), all 256 values x selected write addresses", n, 2048)
@@ -240,10 +244,10 @@ def pixel_map(ctx: Ctx, py: PyProgram, rs: RustProgram) -> None:
     ctx.need(len(pix) == 1, "get_display_buffer: the (byte, bit) -> pixel helper was not identified")
     pix_name = pix[0].name
 
-    def py_map(start_line: int) -> dict:
+    def py_map(start_line: int, on: tuple = (True, True)) -> dict:
         ev_ = PyEval(py, mod, budget=[3_000_000])
         buf: dict = {}
-        chips_ = [Term("HD61202", (), {"vram": _Vram(i), "state": Term("State", (), {"on": True, "start_line": start_line})}) for i in (0, 1)]
+        chips_ = [Term("HD61202", (), {"vram": _Vram(i), "state": Term("State", (), {"on": on[i], "start_line": start_line})}) for i in (0, 1)]
         ev_.env = {"self": Term("HD61202Controller", (), {"chips": chips_}), "HD61202": Term("HD61202", (), dict(hconsts))}
         body_ = [st_ for st_ in fn.body if not (st_ is pix[0]) and not (isinstance(st_, ast.Assign) and "np.zeros" in unparse(st_.value)) and not isinstance(st_, ast.Return)]
         ev_.env[buf_name] = buf
@@ -432,7 +436,28 @@ def pixel_map(ctx: Ctx, py: PyProgram, rs: RustProgram) -> None:
             r, c_ = diff[0]
             ctx.violation("C15.2/display-parity", key_of(CW_PY, "HD61202Controller.get_display_buffer", f"differs from LcdController::display_buffer at start line {sl}" if sl else "differs from LcdController::display_buffer"),
                           f"with display start line {sl}, {len(diff)} of 7680 pixels show a different VRAM bit in the two machines; e.g. pixel (row {r}, col {c_}): Python {pbuf.get((r, c_))}, Rust {rbuf[r].get(c_)}", f"{CW_PY} vs {rs.file_for(LCD_RS)}")
-    ctx.instance("C15.2/display-parity", "display pixels x start lines {0, 8, 37}: Python stitcher == Rust display_buffer (both interpreted with symbolic VRAM)", n, 23040)
+    # display ON/OFF: a chip that is switched off drives no pixel (HD61202: DISPLAY OFF blanks the panel half) - in both machines
+    for on in ((False, False), (True, False), (False, True)):
+        rbuf = [dict() for _ in range(32)]
+        for c in sites:
+            a = c["args"]
+            chipdef = d.get(expr_text(a[1]), [None])[0]
+            chip = int(expr_text(chipdef).split("[")[1].split("]")[0])
+            try:
+                pit.call("copy_region", [rbuf, {"state": {"start_line": 0, "on": on[chip]}, "vram": _RsVram(chip)}, evr.eval(a[2]), range(evr.eval(a[3]["lo"]), evr.eval(a[3]["hi"])), evr.eval(a[4]), evr.eval(a[5])])
+            except Exception as e:  # noqa: BLE001
+                raise AnalysisError(f"copy_region (Rust) left the evaluable fragment: {type(e).__name__}: {e}")
+        # does the Rust stitcher consult the on flag anywhere on the way to the pixel (call-site guard or inside copy_region)?
+        rs_reads_on = any(x.get("k") == "field" and x.get("name") == "on" for f_ in (db, rs.fn(LCD_RS, "copy_region")) for x in walk(f_.body))
+        pbuf = py_map(0, on)
+        n += 32 * 240
+        py_driven = len(pbuf)
+        rs_driven = sum(len(r_) for r_ in rbuf) if not rs_reads_on else None
+        if rs_driven is not None and rs_driven != py_driven:
+            ctx.violation("C15.2/display-parity", key_of(rs.file_for(LCD_RS), "LcdController::display_buffer", "ignores DISPLAY ON/OFF"),
+                          f"with chips (left, right) on={on} the Python stitcher drives {py_driven} pixels (a chip that is off shows nothing) while the Rust display_buffer drives {rs_driven}: it never reads `state.on`, so a panel half that was switched off still shows its VRAM", f"{rs.file_for(LCD_RS)}:{db.ln}")
+            break
+    ctx.instance("C15.2/display-parity", "display pixels x start lines {0, 8, 37} and x on/off states: Python stitcher == Rust display_buffer (both interpreted with symbolic VRAM)", n, 23040)
 
 
 # ---------------------------------------------------------------------------
@@ -882,3 +907,29 @@ def chip_methods(ctx: Ctx, py: PyProgram, rs: RustProgram, W: int, P: int) -> in
     for (rule, construct), msg in bad.items():
         ctx.violation(rule, key_of(HD_PY if construct.startswith("Python") else rel, construct, rule.split("/")[1]), msg, f"{HD_PY} vs {rel}")
     return n
+
+
+def storage_shape(ctx: Ctx, py: PyProgram) -> None:
+    """Two shape clauses of "one data write changes the eight pixels of one column" and of "what the snapshot shows is the state":
+    (a) the rows of a VRAM grid are distinct objects - a grid is never built by repeating one mutable row (`[[0] * W] * P`), which
+    would make a store into one page appear in all of them; (b) a stored copy of chip state in the display layer is dropped by every
+    function that changes a field it reads (shared with C16: reads advance the column pointer too)."""
+    from ..memo import incoherent_copies
+    n = 0
+    for rel in (HD_PY, CW_PY, PL_PY):
+        mod = py.module(rel)
+        for a in ast.walk(mod.tree):
+            if isinstance(a, ast.BinOp) and isinstance(a.op, ast.Mult):
+                for side in (a.left, a.right):
+                    if isinstance(side, ast.List) and any(isinstance(e, (ast.List, ast.ListComp, ast.Dict, ast.Set)) or (isinstance(e, ast.BinOp) and isinstance(e.op, ast.Mult) and any(isinstance(x, ast.List) for x in (e.left, e.right))) for e in side.elts):
+                        n += 1
+                        ctx.violation("C15.2/rows-distinct", key_of(rel, "grid built by repeating a mutable row", unparse(a)[:60]),
+                                      f"`{unparse(a)[:80]}` builds a grid whose rows are one and the same list object: a data write to one page shows up in every page (8 VRAM bytes and 8 x 8 pixels change instead of one byte / one column)", f"{rel}:{a.lineno}")
+        for st in ast.walk(mod.tree):
+            if isinstance(st, ast.Assign) and any(isinstance(t, ast.Attribute) and t.attr in ("vram", "vram_pc_source") for t in st.targets):
+                n += 1
+    mods = [py.module(f) for f in (PL_PY, CW_PY)]
+    found, scanned = incoherent_copies(mods, py.module(HD_PY), "HD61202")
+    for rel, ln, what in found:
+        ctx.violation("C15.3/live-sources", key_of(rel, what.split(" changes ")[0], "stale stored copy"), what.replace("the snapshot saver among them", "get_snapshot() among them"), f"{rel}:{ln}")
+    ctx.instance("C15.2/storage-shape", "VRAM grid constructions with distinct rows; display-layer methods scanned for stored copies of chip state", n + scanned, 20)
